@@ -973,3 +973,17 @@ Proof.
   apply andb_prop in Hd. destruct Hd as [H1 H2]. apply Z.eqb_eq in H1. apply Z.eqb_eq in H2.
   pose proof (hi_ref [] h HI a c Hf (fun y => y)). lia.
 Qed.
+
+(* non-vacuity: a key event reaches the focused leaf of a three-level chain through three dispatch frames; its handler
+   drops the last client reference to its own window and then to its parent (both live on until their frames let go),
+   sends a mouse event from inside (whose handler on the root makes further calls), and the script goes on to flush and to release the root.  The run completes,
+   the discipline accepts its trace, 3+3 frame references were taken for the first event, and nothing stays allocated. *)
+Definition ev_demo : list op :=
+  [ONew 1 false false false false; ONew 2 false false false false; OFocus 3;
+   OBind 3 0 true 0 false [OUnref 3; OUnref 2; ORef 1; OMouse MPress; OUnref 1];
+   OBind 1 1 false 1 false [OShow 1; OExpose 1];
+   OKey; OMouse MPress; OMouse MRelease; OFlush 1; OUnref 1].
+Lemma events_nonvacuous : exists h,
+  run_script fixed 80 ev_demo = VOk h /\ wf_trace (tr h) = true /\ heap_empty h = true /\
+  (6 <= length (filter (fun o => match o with OFrameRef _ => true | _ => false end) (tr h)))%nat.
+Proof. vm_compute. eexists. split; [reflexivity|]. split; [reflexivity|]. split; [reflexivity|]. lia. Qed.
